@@ -50,6 +50,8 @@ def _I(a, b):
 
 class _NS(dict):
     def __missing__(self, k):
+        if k in _GLOBALS:
+            return _GLOBALS[k]
         return k
 
 
